@@ -49,6 +49,39 @@ Proof.
   rewrite (C15_return_roundtrip (ArrMsg n ty addr vals) Hin Hr). auto.
 Qed.
 
+(* consequence: within one direction two different in-range messages never have the same
+   bytes - in particular an array with an undefined entry and the same array with any
+   defined value there (0 included) are different byte strings *)
+Definition msg_injective (t : list mclass) : Prop :=
+  forall m m', In (msg_class m) t -> In (msg_class m') t ->
+    msg_in_range gen_af m = true -> msg_in_range gen_af m' = true ->
+    encode_msg gen_af m = encode_msg gen_af m' -> m = m'.
+
+Lemma msg_injective_of_roundtrip t : roundtrip t -> msg_injective t.
+Proof.
+  intros R m m' H1 H1' H2 H2' E.
+  pose proof (R m H1 H2) as D. pose proof (R m' H1' H2') as D'.
+  rewrite E in D. rewrite D in D'. now inversion D'.
+Qed.
+
+Theorem C15_host_injective : msg_injective gen_host.
+Proof. exact (msg_injective_of_roundtrip _ C15_host_roundtrip). Qed.
+Theorem C15_return_injective : msg_injective gen_ret.
+Proof. exact (msg_injective_of_roundtrip _ C15_return_roundtrip). Qed.
+
+Corollary C15_undefined_is_not_a_value :
+  forall n ty addr pre post v, In (MArr n ty) gen_ret ->
+    msg_in_range gen_af (ArrMsg n ty addr (pre ++ None :: post)) = true ->
+    msg_in_range gen_af (ArrMsg n ty addr (pre ++ Some v :: post)) = true ->
+    encode_msg gen_af (ArrMsg n ty addr (pre ++ None :: post)) <>
+    encode_msg gen_af (ArrMsg n ty addr (pre ++ Some v :: post)).
+Proof.
+  intros n ty addr pre post v Hin H1 H2 E.
+  pose proof (C15_return_injective (ArrMsg n ty addr (pre ++ None :: post)) (ArrMsg n ty addr (pre ++ Some v :: post))
+                Hin Hin H1 H2 E) as X.
+  inversion X as [Y]. apply app_inv_head in Y. discriminate Y.
+Qed.
+
 Example C15_nonvacuous :
   match find (fun c => match c with MArr _ _ => true | _ => false end) gen_ret with
   | Some (MArr n ty) =>
@@ -61,6 +94,20 @@ Example C15_nonvacuous :
   end = true.
 Proof. vm_compute. reflexivity. Qed.
 
+Example C15_undefined_nonvacuous :
+  match find (fun c => match c with MArr _ _ => true | _ => false end) gen_ret with
+  | Some (MArr n ty) =>
+      let a := ArrMsg n ty 3 [Some 1; None; Some 7] in
+      let b := ArrMsg n ty 3 [Some 1; Some 0; Some 7] in
+      msg_in_range gen_af a && msg_in_range gen_af b &&
+      (if list_eq_dec Z.eq_dec (encode_msg gen_af a) (encode_msg gen_af b) then false else true)
+  | _ => false
+  end = true.
+Proof. vm_compute. reflexivity. Qed.
+
 Print Assumptions C15_host_roundtrip.
 Print Assumptions C15_return_roundtrip.
 Print Assumptions C15_undefined_stays_undefined.
+Print Assumptions C15_host_injective.
+Print Assumptions C15_return_injective.
+Print Assumptions C15_undefined_is_not_a_value.
